@@ -7,6 +7,6 @@ CONSTANTS
   Dump = TRUE
 INVARIANT RefSound
 INVARIANT ShadowIntAgrees
-INVARIANT ShadowDblCharacterised
+INVARIANT ShadowDblAgrees
 INVARIANT PublishDM
 CHECK_DEADLOCK FALSE
